@@ -2,7 +2,7 @@
 import json, sys, glob, jsonschema
 jsonschema.validate(json.load(open('/verif/MANIFEST.json')), json.load(open('/root/.vp/MANIFEST.schema.json')))
 es = json.load(open('/root/.vp/EVIDENCE.schema.json'))
-for f in sorted(glob.glob('/verif/evidence/*.json')):
+for f in sorted(glob.glob('/verif/evidence/*.json') + glob.glob('/verif/extras/evidence/*.json')):
     jsonschema.validate(json.load(open(f)), es)
     print("ok", f)
 print("manifest ok")
